@@ -34,6 +34,160 @@ def faulty(c):
     return bool(c["mask"]) and any(a != "pass" for a in c["mask"])
 
 
+# ------------------------------------------------------------------ leg "names": value-level identity of negotiated names
+NAMES_IMPORTS = "From DtlsV Require Import Lib.Bytes Neg.C01Names Neg.C01NamesRun."
+NAMES_SITE = ("ALPN commit points: pkg/protocol/extension/alpn.go ALPNProtocolSelection, flight12 flight4Generate / "
+              "flight4bGenerate / commitFinalServerHello (server), flight3handler.go flight3Parse (client)")
+
+
+def _nb(s):
+    return list(s.encode("utf-8"))
+
+
+def _norm(s):
+    import unicodedata
+    return unicodedata.normalize("NFKC", s).casefold().strip(" \x00\n./")
+
+
+def near_pairs(c):
+    """pairs (client entry, server entry) equal up to a normalisation (case, Unicode form, surrounding bytes, one a prefix
+    of the other) but not byte-identical"""
+    out = []
+    for a in c["names_c"] or []:
+        for b in c["names_s"] or []:
+            if a != b and (_norm(a) == _norm(b) or a.startswith(b) or b.startswith(a)):
+                out.append((a, b))
+    return out
+
+
+def names_key(c):
+    return json.dumps([c["gen"], c["names_c"], c["names_s"], c["names_c_absent"], c["names_s_absent"], c["sni_name"], c["mask"]])
+
+
+def names_term(c):
+    def lst(l):
+        return vlib.clist([vlib.cNlist(_nb(x)) for x in (l or [])])
+    k, a = c11lib.obs_class(c)
+    ok = k == 0
+    return "(%s, %s, %d, %d, %d, %s, %s)" % (
+        lst(c["names_c"]), lst(c["names_s"]), 3 if c["c"]["min"] == 3 else 2, k, max(a, 0),
+        vlib.cNlist(_nb(c["client"]["alpn"]) if ok else []), vlib.cNlist(_nb(c["server"]["alpn"]) if ok else []))
+
+
+def names_as_ids(c):
+    """the same case with every distinct BYTE STRING replaced by its own protocol number: what Neg/C11Negotiate.v
+    negotiate (protocols are numbers, equality is identity) says about the pair"""
+    import copy
+    d = copy.deepcopy(c)
+    ids = {}
+    for x in (c["names_c"] or []) + (c["names_s"] or []):
+        ids.setdefault(x, len(ids) + 1)
+    d["c"]["alpn"] = [ids[x] for x in c["names_c"] or []]
+    d["s"]["alpn"] = [ids[x] for x in c["names_s"] or []]
+    for side in ("client", "server"):
+        a = c[side]["alpn"]
+        d[side]["alpn"] = "" if not a else "p%d" % ids.get(a, 9999)
+    return d
+
+
+def names_slim(c):
+    sc = c11lib.slim_case(c)
+    sc.update({"alpn_client_list": c["names_c"], "alpn_server_list": c["names_s"],
+               "alpn_client_list_absent": c["names_c_absent"], "alpn_server_list_absent": c["names_s_absent"],
+               "server_name": c["sni_name"], "seeding_association_uses_client_list_on_both_sides": c["seed_same"],
+               "alpn_client_reports_hex": c["client"]["alpn"].encode("utf-8").hex(),
+               "alpn_server_reports_hex": c["server"]["alpn"].encode("utf-8").hex(),
+               "rerun": "TestVerifC01Names (tags c11,c01), job with these two ALPN lists (WithSupportedProtocols), option sets "
+                        "c/s, resume/seeding and network script as recorded"})
+    return sc
+
+
+def names_leg(chk):
+    out = vlib.out_path("c01names")
+    rc, o = vlib.go_test(".", "^TestVerifC01Names$", {"VERIF_SEED": chk.seed, "VERIF_TIER": chk.tier, "VERIF_OUT": out},
+                         tags=["c11", "c01"], timeout=3000)
+    cases = vlib.read_jsonl(out)
+    vlib.cleanup(out)
+    found = False
+    if rc != 0:
+        kind = vlib.classify_go_failure(o)
+        if kind == "panic":
+            found = True
+            chk.finding(NAMES_SITE, {"monitor": "panic"}, "panic during handshakes between differently spelled lists",
+                        {"output": o[-4000:]})
+        else:
+            chk.broken("correspondence harness TestVerifC01Names no longer runs against /repo (%s)" % kind, o)
+            return False
+    # ---- the property's own statement: both sides report success => the same values, byte for byte
+    established = [c for c in cases if c11lib.both_built(c) and c11lib.both_ok(c)]
+    reported = set()
+    for c in established:
+        for mon, text in c11lib.monitor_agreement(c):
+            if mon in reported:
+                continue
+            reported.add(mon)
+            found = True
+            extra = ""
+            if mon == "alpn":
+                extra = " (bytes %s / %s; client list %r, server list %r)" % (
+                    c["client"]["alpn"].encode("utf-8").hex(), c["server"]["alpn"].encode("utf-8").hex(), c["names_c"], c["names_s"])
+            chk.finding(NAMES_SITE if mon == "alpn" else SITES.get(mon, SITE), {"monitor": "disagreement:" + mon},
+                        "both sides report success but %s%s [gen %s, mask %s]" % (text, extra, c["gen"], c["mask"]),
+                        {"how": "ALPN lists as given (WithSupportedProtocols), option sets c/s, %s, scripted network" % (
+                            "resumed handshake" if c["resume"] else "full handshake"), "case": names_slim(c)})
+    # a byte-identical pair must negotiate on every kind (otherwise the leg exercises nothing)
+    for c in cases:
+        if not c["mask"] and c["names_c"] == ["http/1.1", "webrtc"] and c["names_s"] == ["webrtc"] and not c["sni_name"]:
+            want = "" if c["c"]["min"] == 3 else "webrtc"
+            if not c11lib.both_ok(c) or c["client"]["alpn"] != want:
+                chk.broken("names leg: kind %s does not negotiate %r between identically spelled lists" % (c["gen"], want),
+                           json.dumps(names_slim(c))[:3000])
+    # ---- the model predicts, per configuration: refused (no common byte string) or the common byte-identical name
+    ok_model, mout = vlib.coq_make(["theories/Neg/C01NamesRun.vo", "theories/Neg/C11Run.vo"])
+    if not ok_model:
+        chk.broken("model Neg/C01NamesRun.v no longer compiles", mout)
+        return found
+    final = [c for c in cases if c11lib.both_built(c) and not c["sni_name"] and (c11lib.both_ok(c) or not faulty(c))]
+    bad, err = vlib.coq_mismatches("c01n", NAMES_IMPORTS, "c01n_case", "c01n_ok", [names_term(c) for c in final], shard=80) \
+        if final else ([], "")
+    cmp_cases = final
+    which = "Neg.C01NamesRun.c01n_ok"
+    if bad is not None and not bad:
+        plain = [c for c in established if not c["sni_name"]]
+        bad, err = vlib.coq_mismatches("c01ni", c11lib.IMPORTS, "c11_case", "c11_ok",
+                                       [c11lib.case_term(names_as_ids(c)) for c in plain], shard=80) if plain else ([], "")
+        cmp_cases = plain
+        which = "Neg.C11Run.c11_ok (one protocol number per distinct byte string)"
+    if bad is None:
+        chk.broken("correspondence evaluation failed in coqc (%s)" % which, err)
+    else:
+        for i in bad[:1]:
+            c = cmp_cases[i]
+            mons = c11lib.monitor_agreement(c)
+            chk.finding(NAMES_SITE, {"monitor": "model-mismatch"},
+                        "differently spelled lists: the association ends otherwise than the model predicts (client list %r, server "
+                        "list %r: client %s %r, server %s %r) [gen %s, mask %s]%s" % (
+                            c["names_c"], c["names_s"], c["client"]["class"], c["client"]["alpn"], c["server"]["class"],
+                            c["server"]["alpn"], c["gen"], c["mask"], (": " + mons[0][1]) if mons else ""),
+                        {"case": names_slim(c), "correspondence": which, "mismatching": len(bad)},
+                        no_input=(not mons and not found))
+    near = [c for c in cases if near_pairs(c) or (c["sni_name"]) or "duplicates" in c["gen"]]
+    kinds = {}
+    for c in cases:
+        k = "%s:%s" % (c["gen"].split(":")[0], "established" if c11lib.both_ok(c) else
+                       "%s/%s" % (c["client"]["class"], c["server"]["class"]))
+        kinds[k] = kinds.get(k, 0) + 1
+    chk.count("names", len(cases), [names_key(c) for c in near],
+              samples=[{"gen": c["gen"], "client_list": c["names_c"], "server_list": c["names_s"], "client": c["client"]["class"],
+                        "server": c["server"]["class"], "alpn": [c["client"]["alpn"], c["server"]["alpn"]]} for c in near[-3:]])
+    chk.leg_info("names", established=len(established), compared_with_model=len(final), outcomes=kinds,
+                 note="non-trivial = the two lists hold entries equal up to a normalisation (letter case, Unicode folding / "
+                      "form, surrounding bytes, prefix) but not byte-identical, a server name in another letter case, or "
+                      "lists with duplicates")
+    chk.cov["traces_validated_against_impl"] = chk.cov.get("traces_validated_against_impl", 0) + len(established)
+    return found
+
+
 def run(chk):
     proved = chk.prove(extra_targets=["theories/Neg/C11Run.vo"])
     out = vlib.out_path("c01")
@@ -131,6 +285,8 @@ def run(chk):
                  handshake_kinds=kinds, not_established=notest,
                  note="associations that do not establish under faults (or between option sets that cannot complete) are "
                       "outside C01's statement (liveness is C02); they are listed here only")
+    if names_leg(chk):
+        found_input = True
     if not proved and not found_input:
         where, pout = getattr(chk, "proof_error", ("?", ""))
         chk.broken("proof obligation Properties/C01.v no longer checks (%s)" % where, pout)
